@@ -28,7 +28,7 @@ OPS = ('union', 'intersection', 'difference')
 
 
 def must_see(tier):
-    m = {}
+    m = {'big-universe': 10, }
     for impl in ('c', 'py'):
         for k in setops.CONTAINER_KINDS:
             m['%s:left:%s' % (impl, k)] = 20
@@ -77,6 +77,24 @@ def overlap_class(a, b):
 
 def pick_keys(rng, uni):
     r = rng.random()
+    if len(uni) > 200:
+        # a BIG universe: long runs of keys on one side (whatever an
+        # implementation does to get through a long operand quickly -
+        # skipping, block copies, strides - happens only there) against a
+        # few keys at round distances on the other
+        su = families.sort_keys(list(uni))
+        if r < .45:
+            a = rng.choice([0, 0, rng.randrange(len(su) // 2)])
+            return su[a:] if rng.random() < .7 else su[a:a + rng.randint(
+                100, len(su))]
+        if r < .9:
+            idx = set()
+            for _ in range(rng.randint(1, 6)):
+                base = rng.choice([16, 32, 64, 128, 255, 256, 257, 512, 768,
+                                   1024]) * rng.randint(1, 3)
+                idx.add(base + rng.choice([-1, 0, 0, 0, 1]))
+            return [su[i] for i in sorted(idx) if 0 <= i < len(su)]
+        r = rng.random()
     if r < 0.1:
         return []
     if r < 0.2:
@@ -94,6 +112,14 @@ def run_shard(spec, rec):
         impl = 'c' if i % 2 == 0 else 'py'
         if i % 40 == 0:
             uni = fam.key_universe(rng, n=rng.choice([8, 14, 22]))
+            if (i // 40) % 6 == 4:
+                nb = rng.choice([300, 700, 1300])
+                if fam.kc == 'f':
+                    uni = [bytes([j // 256, j % 256]) for j in range(nb)]
+                else:
+                    lo_ = 0 if fam.kc in 'UQO' else -nb // 2
+                    uni = list(range(lo_, lo_ + nb))
+                rec.ev('big-universe')
             if fam.kc == 'O' and rng.random() < .2:
                 # keys that can be ordered but not hashed (while the
                 # operation runs): nothing in a set operation may hash them
